@@ -2036,3 +2036,281 @@ Lemma repaired_refuses_witnesses :
   step repaired (run repaired init prelude) (RTag (U u2) "") = (run repaired init prelude, Fail) /\
   step repaired init (RNewRepo (Some "xa") "" u1) = (init, Fail).
 Proof. vm_compute. auto. Qed.
+
+(* ------------------------------------------------------------------ the fuel is enough *)
+(* the ancestry walk visits strictly increasing (descend) or decreasing (ascend) version ids of one
+   repo: it cannot take more steps than the repo has nodes *)
+
+Lemma path_bound (m : gmap N node) (acc : list N) :
+  NoDup acc -> (forall x, x ∈ acc -> is_Some (m !! x)) -> (length acc <= size m)%nat.
+Proof.
+  intros ND Hin. unfold size, map_size.
+  rewrite <- (map_length fst (map_to_list m)).
+  apply submseteq_length, NoDup_submseteq; auto.
+  intros x Hx. destruct (Hin x Hx) as [n Hn].
+  apply elem_of_list_In, in_map_iff. exists (x, n). split; auto. apply elem_of_list_In, elem_of_map_to_list. exact Hn.
+Qed.
+
+Lemma lookup_all_spec (m : gmap N node) vs l : lookup_all m vs = Some l ->
+  forall x, x ∈ l -> exists v, v ∈ vs /\ m !! v = Some x.
+Proof.
+  revert l. induction vs as [|a vs IH]; intros l H x Hx; simpl in H.
+  - injection H as <-. inversion Hx.
+  - destruct (m !! a) as [na|] eqn:Ea; [|discriminate].
+    destruct (lookup_all m vs) as [l'|]; [|discriminate]. injection H as <-.
+    apply elem_of_cons in Hx as [->|Hx].
+    + exists a. split; auto. apply elem_of_cons. auto.
+    + destruct (IH l' eq_refl x Hx) as (v & Hv & Hm). exists v. split; auto. apply elem_of_cons. auto.
+Qed.
+
+Section Fuel.
+Variable r : repo.
+Hypothesis W : repo_wf r.
+
+Lemma descend_no_hang bname : forall fuel acc v n,
+  r_nodes r !! v = Some n -> NoDup acc -> (forall x, x ∈ acc -> (x < v)%N /\ is_Some (r_nodes r !! x)) ->
+  (size (r_nodes r) < fuel + length acc)%nat ->
+  descend fuel (r_nodes r) bname n <> Hang.
+Proof.
+  induction fuel as [|fuel IH]; intros acc v n Hn ND Hacc Hf.
+  - exfalso. assert (length acc <= size (r_nodes r))%nat by (apply path_bound; auto; intros x Hx; now apply Hacc).
+    simpl in Hf. lia.
+  - simpl. destruct (lookup_all (r_nodes r) (n_children n)) as [cs|] eqn:Ecs; [|discriminate].
+    destruct (List.filter _ cs) as [|c [|c' rest]] eqn:Ef; try discriminate.
+    assert (Hc : c ∈ cs).
+    { assert (Hin : In c (List.filter (fun c0 => String.eqb (n_branch c0) bname) cs)) by (rewrite Ef; left; auto).
+      apply filter_In in Hin as [Hin _]. now apply elem_of_list_In. }
+    destruct (lookup_all_spec _ _ _ Ecs c Hc) as (vc & Hvc & Hmc).
+    destruct (wf_children r W v n vc Hn Hvc) as (cn & Hcn & Hpar).
+    rewrite Hmc in Hcn. injection Hcn as <-.
+    destruct (wf_parents r W vc c v Hmc Hpar) as [Lt _].
+    apply (IH (acc ++ [v])%list vc c Hmc).
+    + apply NoDup_app. repeat split; auto; [|apply NoDup_singleton].
+      intros x Hx Hx'. apply elem_of_list_singleton in Hx' as ->. destruct (Hacc v Hx). lia.
+    + intros x Hx. apply elem_of_app in Hx as [Hx|Hx].
+      * destruct (Hacc x Hx). split; auto. lia.
+      * apply elem_of_list_singleton in Hx as ->. split; eauto.
+    + rewrite app_length. simpl. lia.
+Qed.
+
+Lemma ascend_no_hang : forall fuel acc v n,
+  r_nodes r !! v = Some n -> NoDup acc -> (forall x, x ∈ acc -> (v < x)%N /\ is_Some (r_nodes r !! x)) ->
+  (size (r_nodes r) < fuel + length acc)%nat ->
+  ascend fuel (r_nodes r) n <> Hang.
+Proof.
+  induction fuel as [|fuel IH]; intros acc v n Hn ND Hacc Hf.
+  - exfalso. assert (length acc <= size (r_nodes r))%nat by (apply path_bound; auto; intros x Hx; now apply Hacc).
+    simpl in Hf. lia.
+  - simpl. destruct (lookup_all (r_nodes r) (n_parents n)) as [ps|] eqn:Eps; [|discriminate].
+    destruct (List.rev ps) as [|lastp rinit] eqn:Er; [discriminate|].
+    assert (Hp : lastp ∈ ps).
+    { apply elem_of_list_In, in_rev. rewrite Er. left. auto. }
+    destruct (lookup_all_spec _ _ _ Eps lastp Hp) as (vp & Hvp & Hmp).
+    destruct (wf_parents r W v n vp Hn Hvp) as [Lt _].
+    assert (Hrec : ascend fuel (r_nodes r) lastp <> Hang).
+    { apply (IH (acc ++ [v])%list vp lastp Hmp).
+      - apply NoDup_app. repeat split; auto; [|apply NoDup_singleton].
+        intros x Hx Hx'. apply elem_of_list_singleton in Hx' as ->. destruct (Hacc v Hx). lia.
+      - intros x Hx. apply elem_of_app in Hx as [Hx|Hx].
+        + destruct (Hacc x Hx). split; auto. lia.
+        + apply elem_of_list_singleton in Hx as ->. split; eauto.
+      - rewrite app_length. simpl. lia. }
+    destruct (ascend fuel (r_nodes r) lastp); simpl; try discriminate. congruence.
+Qed.
+
+Lemma descend_in bname : forall fuel v n leaf, r_nodes r !! v = Some n ->
+  descend fuel (r_nodes r) bname n = Done leaf -> exists vl, r_nodes r !! vl = Some leaf.
+Proof.
+  induction fuel as [|fuel IH]; intros v n leaf Hn Ed; simpl in Ed; [discriminate|].
+  destruct (lookup_all (r_nodes r) (n_children n)) as [cs|] eqn:Ecs; [|discriminate].
+  destruct (List.filter _ cs) as [|c [|c' rest]] eqn:Ef; try discriminate.
+  - injection Ed as <-. eauto.
+  - assert (Hc : c ∈ cs).
+    { assert (Hin : In c (List.filter (fun c0 => String.eqb (n_branch c0) bname) cs)) by (rewrite Ef; left; auto).
+      apply filter_In in Hin as [Hin _]. now apply elem_of_list_In. }
+    destruct (lookup_all_spec _ _ _ Ecs c Hc) as (vc & _ & Hmc). apply (IH vc c leaf Hmc Ed).
+Qed.
+
+Lemma ancestry_no_hang pick name : ancestry pick r name <> Hang.
+Proof.
+  unfold ancestry. destruct (nth_error _ _) as [n0|] eqn:En; [|discriminate].
+  assert (Hin : exists v0, r_nodes r !! v0 = Some n0).
+  { apply nth_error_In in En. unfold ancestry_starts in En. apply in_map_iff in En as ([v0 n] & <- & Hin).
+    apply filter_In in Hin as [Hin _]. exists v0. now apply elem_of_map_to_list, elem_of_list_In. }
+  destruct Hin as [v0 Hv0]. unfold ancestry_from.
+  assert (D : descend (S (size (r_nodes r))) (r_nodes r) (n_branch n0) n0 <> Hang).
+  { apply (descend_no_hang (n_branch n0) (S (size (r_nodes r))) [] v0 n0 Hv0 (NoDup_nil_2)).
+    - intros x Hx. inversion Hx.
+    - simpl. lia. }
+  destruct (descend (S (size (r_nodes r))) (r_nodes r) (n_branch n0) n0) as [leaf| | |] eqn:Ed;
+    simpl; try discriminate; [|congruence].
+  destruct (descend_in _ _ _ _ _ Hv0 Ed) as [vl Hvl].
+  apply (ascend_no_hang (S (size (r_nodes r))) [] vl leaf Hvl (NoDup_nil_2)).
+  - intros x Hx. inversion Hx.
+  - simpl. lia.
+Qed.
+
+End Fuel.
+
+Lemma obind_no_hang {A B} (x : outcome A) (f : A -> outcome B) :
+  x <> Hang -> (forall a, x = Done a -> f a <> Hang) -> obind x f <> Hang.
+Proof. destruct x; simpl; auto; congruence. Qed.
+
+Lemma of_opt_no_hang {A} (x : option A) : of_opt x <> Hang.
+Proof. destruct x; discriminate. Qed.
+
+Lemma repo_by_uuid_wf s u r : RepoInv s -> repo_by_uuid s u = Some r -> repo_wf r.
+Proof.
+  intros I H. unfold repo_by_uuid in H. destruct (st_repo_of s !! u) as [i|] eqn:Ei; [|discriminate].
+  destruct (inv_repo_of s I u i Ei) as (R & r' & _ & _ & HR & Hr & _). rewrite H in Hr. injection Hr as <-.
+  now destruct (inv_root_eq s i R r I HR H).
+Qed.
+
+Lemma the_only_repo_wf s r : RepoInv s -> the_only_repo s = Done r -> repo_wf r.
+Proof.
+  intros I. unfold the_only_repo. destruct (map_to_list (st_roots s)) as [|[i R] [|]] eqn:E; try discriminate.
+  assert (HR : st_roots s !! i = Some R) by (apply elem_of_map_to_list; rewrite E; apply elem_of_cons; auto).
+  destruct (st_repos s !! i) as [r'|] eqn:Hr; [|discriminate]. simpl. intros [= <-].
+  now destruct (inv_root_eq s i R r' I HR Hr).
+Qed.
+
+Lemma gbv_no_hang pick s u name : RepoInv s -> get_branch_version pick s u name <> Hang.
+Proof.
+  intros I. unfold get_branch_version. apply obind_no_hang.
+  - destruct (String.eqb u ""); [|apply of_opt_no_hang].
+    unfold the_only_repo. destruct (map_to_list (st_roots s)) as [|[i R] [|]]; try discriminate. apply of_opt_no_hang.
+  - intros r Hr. assert (W : repo_wf r).
+    { destruct (String.eqb u ""); [now apply (the_only_repo_wf s)|].
+      destruct (repo_by_uuid s u) eqn:E; [|discriminate]. injection Hr as <-. now apply (repo_by_uuid_wf s u). }
+    apply obind_no_hang.
+    + destruct (split_on "~" name) as [|nm [|k [|]]]; try apply of_opt_no_hang.
+      apply obind_no_hang; [now apply ancestry_no_hang|].
+      intros anc _. destruct (atoi k) as [z|]; [|discriminate].
+      destruct (z <? 0)%Z; [discriminate|apply of_opt_no_hang].
+    + intros bu _. destruct (st_u2v s !! bu); discriminate.
+Qed.
+
+Lemma matching_no_hang s x : RepoInv s -> matching s x <> Hang.
+Proof.
+  intros I. unfold matching.
+  assert (P : forall p b, match prefix_matches s p with
+                          | [(u, _)] => if String.eqb b "" then Done u else get_branch_version (ur_pick x) s u b
+                          | _ => Fail end <> Hang).
+  { intros p b. destruct (prefix_matches s p) as [|[u v] [|]]; try discriminate.
+    destruct (String.eqb b ""); [discriminate|now apply gbv_no_hang]. }
+  destruct (split_on ":" (ur_str x)) as [|a [|b [|]]]; try discriminate; auto.
+  destruct (String.eqb a ""); auto. now apply gbv_no_hang.
+Qed.
+
+Lemma match_all_no_hang s xs : RepoInv s -> match_all s xs <> Hang.
+Proof.
+  intros I. induction xs as [|x xs IH]; simpl; [discriminate|].
+  apply obind_no_hang; [now apply matching_no_hang|]. intros u _.
+  apply obind_no_hang; [exact IH|intros l _; discriminate].
+Qed.
+
+Lemma node_gate_no_hang s x b : RepoInv s -> node_gate s x b <> Hang.
+Proof.
+  intros I. unfold node_gate. apply obind_no_hang; [now apply matching_no_hang|]. intros u _.
+  apply obind_no_hang.
+  - unfold locked_uuid. destruct (find_node s u) as [[[[? ?] ?] ?]|]; discriminate.
+  - intros lk _. destruct (lk && negb b); discriminate.
+Qed.
+
+Lemma recast_hang {A B} (o : outcome A) : o <> Hang -> @recast A B o <> Hang.
+Proof. destruct o; simpl; auto; discriminate. Qed.
+
+Lemma do_new_version_no_hang fx s p b a f : snd (do_new_version fx s p b a f) <> Hang.
+Proof.
+  unfold do_new_version. destruct (find_node s p) as [[[[i r] v] n]|]; [|discriminate].
+  destruct (negb (n_locked n)); [discriminate|].
+  match goal with |- context [match ?o with Some _ => _ | None => (s, Fail) end] => destruct o end; [|discriminate].
+  destruct (fx_assign_check fx && assign_refused s a); [discriminate|]. unfold new_uuid. simpl. discriminate.
+Qed.
+
+Lemma do_merge_no_hang fx s ps f : snd (do_merge fx s ps f) <> Hang.
+Proof.
+  unfold do_merge. destruct ps as [|p0 [|p1 rest]]; try discriminate.
+  destruct (st_repo_of s !! p0) as [i|]; [|discriminate].
+  remember (p0 :: p1 :: rest) as ps eqn:Eps. clear Eps.
+  destruct (fx_merge_validate fx).
+  - destruct (st_repos s !! i) as [r|]; [|discriminate].
+    destruct (validate_parents s r ps) as [vs|]; [|discriminate].
+    destruct (fx_merge_distinct fx && negb (bool_decide (NoDup vs))); [discriminate|].
+    unfold new_uuid. simpl. discriminate.
+  - unfold new_uuid. simpl.
+    match goal with |- context [merge_link ?a ?b ?c ?d] => destruct (merge_link a b c d) as [s4 [|]] end; discriminate.
+Qed.
+
+Lemma do_commit_no_hang s u : snd (do_commit s u) <> Hang.
+Proof.
+  unfold do_commit. destruct (find_node s u) as [[[[i r] v] n]|]; [|discriminate].
+  destruct (n_locked n); discriminate.
+Qed.
+
+(* no request makes the repaired code loop on a state that satisfies the invariant *)
+Theorem step_no_hang s r : RepoInv s -> snd (step repaired s r) <> Hang.
+Proof.
+  intros I. destruct r; simpl.
+  - unfold do_new_repo. match goal with |- context [if ?b then _ else _] => destruct b end; [discriminate|].
+    unfold new_uuid. simpl. discriminate.
+  - unfold h_commit. pose proof (node_gate_no_hang s u false I) as G.
+    destruct (node_gate s u false) as [a| | |]; simpl; try discriminate; [|congruence].
+    unfold locked_uuid. destruct (find_node s a) as [[[[? ?] ?] n]|]; [|discriminate].
+    destruct (n_locked n); [discriminate|].
+    pose proof (do_commit_no_hang s a). destruct (do_commit s a) as [s1 [[]| | |]]; simpl in *; congruence.
+  - unfold h_new_version. pose proof (node_gate_no_hang s u true I) as G.
+    destruct (node_gate s u true) as [a| | |]; simpl; try discriminate; [|congruence].
+    unfold parse_assign. destruct (String.eqb assign ""); [apply do_new_version_no_hang|].
+    destruct (valid_uuid assign); [apply do_new_version_no_hang|discriminate].
+  - unfold h_branch. pose proof (node_gate_no_hang s u true I) as G.
+    destruct (node_gate s u true) as [a| | |]; simpl; try discriminate; [|congruence].
+    unfold parse_assign. destruct (String.eqb assign ""); [|destruct (valid_uuid assign); [|discriminate]];
+      (match goal with |- context [if ?b then _ else _] => destruct b end;
+       [discriminate|apply do_new_version_no_hang]).
+  - unfold h_tag. pose proof (node_gate_no_hang s u true I) as G.
+    destruct (node_gate s u true) as [a| | |]; simpl; try discriminate; [|congruence].
+    pose proof (do_new_version_no_hang repaired s a (s_tag_prefix ++ tag) (Some tag) "") as H.
+    destruct (do_new_version repaired s a (s_tag_prefix ++ tag) (Some tag) "") as [s1 [c| | |]]; simpl in *; congruence.
+  - unfold h_merge, repo_gate. pose proof (matching_no_hang s u I) as G.
+    destruct (matching s u) as [a| | |]; simpl; try discriminate; [|congruence].
+    destruct (length parents <? 2)%nat; [discriminate|].
+    pose proof (match_all_no_hang s parents I) as M.
+    destruct (match_all s parents) as [ps| | |]; simpl; try discriminate; [|congruence].
+    destruct (negb mtype_ok); [discriminate|apply do_merge_no_hang].
+  - unfold h_resolve, repo_gate. pose proof (matching_no_hang s u I) as G.
+    destruct (matching s u) as [a| | |]; simpl; try discriminate; [|congruence].
+    destruct data as [|d data']; [discriminate|].
+    destruct (length parents <? 2)%nat; [discriminate|].
+    pose proof (match_all_no_hang s parents I) as M.
+    destruct (match_all s parents) as [ps| | |]; try discriminate; [|simpl; congruence].
+    match goal with |- context [if ?b then _ else _] => destruct b end; [discriminate|].
+    destruct (resolve_data repaired s a ps [] (d :: data')) as [s1 [ext|]]; [|discriminate].
+    match goal with |- context [commit_extensions ?a ?b ?c] => destruct (commit_extensions a b c) as [s2 [|]] end;
+      [apply do_merge_no_hang|discriminate].
+  - apply node_gate_no_hang, I.
+  - apply node_gate_no_hang, I.
+  - apply matching_no_hang, I.
+  - unfold h_new_data, repo_gate. pose proof (matching_no_hang s u I) as G.
+    destruct (matching s u) as [a| | |]; simpl; try discriminate; [|congruence].
+    unfold locked_uuid. destruct (find_node s a) as [[[[? ?] ?] n]|]; [|discriminate].
+    destruct (n_locked n); [discriminate|]. destruct (negb type_ok); [discriminate|].
+    unfold do_new_data. destruct (st_repo_of _ !! a) as [i0|]; [|discriminate].
+    destruct (st_repos _ !! i0) as [r0|]; [|discriminate]. destruct (in_list name (r_data r0)); discriminate.
+  - unfold h_rpc. pose proof (matching_no_hang s u I) as G.
+    destruct (matching s u) as [a| | |]; simpl; try discriminate; [|congruence].
+    unfold do_rename_data. destruct (st_repo_of s !! a) as [i|]; [|discriminate].
+    destruct (st_repos s !! i) as [r|]; [|discriminate].
+    repeat (match goal with |- context [if ?b then _ else _] => destruct b end; try discriminate).
+  - unfold h_rpc. pose proof (matching_no_hang s u I) as G.
+    destruct (matching s u) as [a| | |]; simpl; try discriminate; [|congruence].
+    unfold do_delete_data. destruct (st_repo_of s !! a) as [i|]; [|discriminate].
+    destruct (st_repos s !! i) as [r|]; [|discriminate].
+    repeat (match goal with |- context [if ?b then _ else _] => destruct b end; try discriminate).
+  - unfold h_rpc. pose proof (matching_no_hang s u I) as G.
+    destruct (matching s u) as [a| | |]; simpl; try discriminate; [|congruence].
+    unfold do_delete_repo. destruct (st_repo_of s !! a) as [i|]; [|discriminate].
+    destruct (st_repos s !! i) as [r|]; [|discriminate].
+    repeat (match goal with |- context [if ?b then _ else _] => destruct b end; try discriminate).
+    match goal with |- context [drop_versions ?a ?b] => destruct (drop_versions a b) end; discriminate.
+Qed.
